@@ -21,7 +21,7 @@ def sh(cmd, cwd=None, timeout=1800):
 
 
 def worktree():
-    wt = "/tmp/wt_seed"  # fixed path: the Go build cache is keyed by path, a new path per run filled the disk once
+    wt = os.environ.get("SEED_WT", "/tmp/wt_seed")  # fixed path: the Go build cache is keyed by path, a new path per run filled the disk once
     sh("git -C /repo worktree remove --force %s" % wt)
     rc, out = sh("git -C /repo worktree add --detach %s HEAD" % wt)
     assert rc == 0, out
